@@ -1,4 +1,4 @@
-"""Program generation: runs spec/Builder.tla under TLC (exhaustive BFS or -simulate) and collects the
+"""Program generation: runs spec/Gen.tla under TLC (exhaustive BFS or -simulate) and collects the
 recipes printed at every Finish.  The specification decides which programs exist; this is plumbing."""
 import json
 import os
@@ -21,14 +21,16 @@ def cfg_text(c):
              "NVarsB = %d" % c.get("NVarsB", 0),
              "InitVars = %s" % ("TRUE" if c.get("InitVars", True) else "FALSE"),
              'SigsName = "%s"' % c.get("SigsName", "none"),
+             "NLocals = %d" % c.get("NLocals", 0),
+             "NCtr = %d" % c.get("NCtr", 0),
              "CHECK_DEADLOCK FALSE"]
     return "\n".join(lines) + "\n"
 
 
-def run_builder(c, name, simulate=None, depth=None, seed=None, workers=8, timeout=900):
+def run_builder(c, name, simulate=None, depth=None, seed=None, workers=8, timeout=900, module="Gen"):
     """Returns (recipes, TLCResult).  Recipes are de-duplicated (a printing action may be evaluated twice)."""
     wd = tlc.workdir("gen_" + name)
-    res = tlc.run_tlc("Builder", cfg_text(c), wd, workers=workers, timeout=timeout, simulate=simulate,
+    res = tlc.run_tlc(module, cfg_text(c), wd, workers=workers, timeout=timeout, simulate=simulate,
                       depth=depth, seed=seed, xss="64m")
     seen = set()
     out = []
